@@ -39,6 +39,8 @@ func c26(p *core.Program, r *core.Report) {
 	c26ListElements(p, r)
 	r.Rule("R6", "conversion errors are not discarded: wherever package pql (generated parser actions included) turns query text into a value with strconv (Unquote, ParseInt, ParseFloat, ...), the error result is kept, not assigned to _")
 	c26ConversionErrors(p, r)
+	r.Rule("R7", "an operator applies to one argument: every hand-written parser helper of package pql that clears callStackElem.lastField (the argument is complete) also resets lastCond to ILLEGAL on that path, directly or through a callStackElem method that does")
+	c26OperatorAppliesOnce(p, r)
 	r.NotDecided = "that the PEG grammar accepts exactly PQL; escape handling inside strconv.Unquote; numeric range handling; values nested inside lists"
 	qp, pk := p.Pkg("pql"), p.Pkg("")
 	if qp == nil || pk == nil {
